@@ -44,7 +44,7 @@ def _by(by):
 
 _KEEP = {
     'Init': [],
-    'Disp': ['b', 'e', 'ty', 'out', 'xp', 'xpe', 'act', 'drv', 'fw', 'same'],
+    'Disp': ['b', 'e', 'ty', 'out', 'xp', 'xpe', 'act', 'drv', 'fw', 'same', 'n'],
     'HEnter': ['act', 'b', 'e', 'h', 'rb', 'sync', 'tmo'],
     'HExit': ['act', 'out'],
     'HOp': ['act'],
@@ -169,7 +169,7 @@ def validate_obs(traces, jobs=8, batch=150, keep_dir=None):
 # conformance: TraceImpl (the recorded trace replayed through the actions of Bubus.tla)
 # ---------------------------------------------------------------------------------------------
 _H_OPS = {'d', 'y', 's', 'a', 'rb', 'raise', 'ret', 'g', 'logop'}
-_D_OPS = {'d', 'a', 'y', 's', 'idle', 'g', 'acc', 'stop', 'crl'}
+_D_OPS = {'d', 'a', 'y', 's', 'idle', 'g', 'acc', 'stop', 'crl', 'expect'}
 
 
 def impl_eligible(scn):
@@ -189,7 +189,7 @@ def impl_eligible(scn):
                     return False
     for ops in scn['drivers']:
         for op in ops:
-            if op[0] not in _D_OPS or (op[0] == 'd' and (len(op) > 3 and op[3])) or (op[0] == 'idle' and len(op) > 2 and op[2] is not None and op[2] < 1000) \
+            if op[0] not in _D_OPS or (op[0] == 'd' and len(op) > 3 and op[3]) or (op[0] == 'idle' and len(op) > 2 and op[2] is not None and op[2] < 1000) \
                     or (op[0] == 'stop' and ((len(op) > 2 and op[2]) or (len(op) > 3 and op[3]))):
                 return False
     return True
